@@ -47,16 +47,16 @@ Lemma inc_loop_gen (nb : nat) : forall (fuel : nat) r,
     (nbit <? 0) = negb (fst (inc_loop nb r)) /\ -1 <= nbit < 64 /\ 0 <= snd (inc_loop nb r) < 2 ^ 64.
 Proof.
   induction nb as [|b IH]; intros fuel r Hf Hb Hr; (destruct fuel as [|fuel]; [lia|]).
-  - cbn [brc_inc_loop1 inc_loop]. change (c_ge (0 - 1) 0) with false. cbv iota. exists (-1). cbn. repeat split; lia.
-  - cbn [brc_inc_loop1 inc_loop]. replace (Z.of_nat (S b) - 1) with (Z.of_nat b) by lia.
+  - cbn [brc_inc_loop1 inc_loop CInt.obind]. change (c_ge (0 - 1) 0) with false. cbv iota. exists (-1). cbn. repeat split; lia.
+  - cbn [brc_inc_loop1 inc_loop CInt.obind]. replace (Z.of_nat (S b) - 1) with (Z.of_nat b) by lia.
     unfold c_ge. replace (0 <=? Z.of_nat b) with true by (symmetry; apply Z.leb_le; lia). cbv iota.
-    rewrite complement_u64_spec by lia. cbn [obind].
+    rewrite complement_u64_spec by lia. cbn [CInt.obind].
     pose proof (flip_spec r b ltac:(lia)) as Hfl.
     pose proof (flip_range r b 64 ltac:(lia) Hr) as Hfr.
     destruct (Z.testbit r (Z.of_nat b)) eqn:E; cbn [negb]; rewrite <- Hfl.
     + assert (Hs : ssub i32 (Z.of_nat b) 1 = Some (Z.of_nat b - 1)) by (apply checked_some, i32_small; lia).
-      rewrite Hs. cbn [obind]. apply IH; [lia|lia|exact Hfr].
-    + exists (Z.of_nat b). cbn [fst snd negb]. repeat split; try lia. apply Z.ltb_ge. lia.
+      rewrite Hs. cbn [CInt.obind]. apply IH; [lia|lia|exact Hfr].
+    + exists (Z.of_nat b). cbn [fst snd negb]. repeat split; try lia; try (apply Z.ltb_ge; lia).
 Qed.
 
 Lemma dec_loop_gen (nb : nat) : forall (fuel : nat) r,
@@ -69,13 +69,13 @@ Proof.
   - cbn [brc_dec_loop1 dec_loop]. change (c_ge (0 - 1) 0) with false. cbv iota. exists (-1). cbn. repeat split; lia.
   - cbn [brc_dec_loop1 dec_loop]. replace (Z.of_nat (S b) - 1) with (Z.of_nat b) by lia.
     unfold c_ge. replace (0 <=? Z.of_nat b) with true by (symmetry; apply Z.leb_le; lia). cbv iota.
-    rewrite complement_u64_spec by lia. cbn [obind].
+    rewrite complement_u64_spec by lia. cbn [CInt.obind].
     pose proof (flip_spec r b ltac:(lia)) as Hfl.
     pose proof (flip_range r b 64 ltac:(lia) Hr) as Hfr.
     destruct (Z.testbit r (Z.of_nat b)) eqn:E; cbn [negb]; rewrite <- Hfl.
-    + exists (Z.of_nat b). cbn [fst snd negb]. repeat split; try lia. apply Z.ltb_ge. lia.
+    + exists (Z.of_nat b). cbn [fst snd negb]. repeat split; try lia; try (apply Z.ltb_ge; lia).
     + assert (Hs : ssub i32 (Z.of_nat b) 1 = Some (Z.of_nat b - 1)) by (apply checked_some, i32_small; lia).
-      rewrite Hs. cbn [obind]. apply IH; [lia|lia|exact Hfr].
+      rewrite Hs. cbn [CInt.obind]. apply IH; [lia|lia|exact Hfr].
 Qed.
 
 Definition representable (s : MsPq.brc) : Prop :=
@@ -88,17 +88,17 @@ Proof.
   intros Hf (Hc0 & Hc & Hr & Hh). unfold Gen_brc.brc_inc, MsPq.brc_inc, to_gen.
   cbn [brc_m_nCounter brc_m_nReversed brc_m_nHighBit].
   assert (Hu : uadd u64 (bc s) 1 = bc s + 1) by (unfold uadd; cbn [ibits u64]; apply Z.mod_small; lia). rewrite Hu.
-  assert (Hs1 : ssub i32 (bh s) 1 = Some (bh s - 1)) by (apply checked_some, i32_small; lia). rewrite Hs1. cbn [obind].
+  assert (Hs1 : ssub i32 (bh s) 1 = Some (bh s - 1)) by (apply checked_some, i32_small; lia). rewrite Hs1. cbn [CInt.obind].
   destruct (inc_loop_gen (Z.to_nat (bh s)) fuel (br s) ltac:(lia) ltac:(lia) Hr) as (nbit & He & Hlt & Hnb & Hrr).
   assert (Hidx : Z.of_nat (Z.to_nat (bh s)) - 1 = bh s - 1 \/ bh s = -1) by lia.
   destruct Hidx as [Hidx|Hm1].
-  - rewrite Hidx in He. rewrite He. cbn [obind]. unfold c_lt. rewrite Hlt.
+  - rewrite Hidx in He. rewrite He. cbn [CInt.obind]. unfold c_lt. rewrite Hlt.
     destruct (inc_loop (Z.to_nat (bh s)) (br s)) as [[|] r']; cbn [fst snd negb].
     + reflexivity.
     + assert (Hs2 : sadd i32 (bh s) 1 = Some (bh s + 1)) by (apply checked_some, i32_small; lia). rewrite Hs2. reflexivity.
   - (* empty counter: the loop does not run *)
     rewrite Hm1 in *. change (Z.to_nat (-1)) with 0%nat in *. cbn [inc_loop fst snd] in *.
-    destruct fuel as [|fuel]; [lia|]. cbn [brc_inc_loop1]. change (c_ge (-1 - 1) 0) with false. cbv iota. cbn [obind].
+    destruct fuel as [|fuel]; [lia|]. cbn [brc_inc_loop1]. change (c_ge (-1 - 1) 0) with false. cbv iota. cbn [CInt.obind].
     change (c_lt (-1 - 1) 0) with true. cbv iota. change (sadd i32 (-1) 1) with (Some 0). reflexivity.
 Qed.
 
@@ -109,10 +109,10 @@ Proof.
   intros Hf Hc Hr Hh. unfold Gen_brc.brc_dec, MsPq.brc_dec, to_gen.
   cbn [brc_m_nCounter brc_m_nReversed brc_m_nHighBit].
   assert (Hu : usub u64 (bc s) 1 = bc s - 1) by (unfold usub; cbn [ibits u64]; apply Z.mod_small; lia). rewrite Hu.
-  assert (Hs1 : ssub i32 (bh s) 1 = Some (bh s - 1)) by (apply checked_some, i32_small; lia). rewrite Hs1. cbn [obind].
+  assert (Hs1 : ssub i32 (bh s) 1 = Some (bh s - 1)) by (apply checked_some, i32_small; lia). rewrite Hs1. cbn [CInt.obind].
   destruct (dec_loop_gen (Z.to_nat (bh s)) fuel (br s) ltac:(lia) ltac:(lia) Hr) as (nbit & He & Hlt & Hnb & Hrr).
-  replace (Z.of_nat (Z.to_nat (bh s)) - 1) with (bh s - 1) in He by lia. rewrite He. cbn [obind]. unfold c_lt. rewrite Hlt.
+  replace (Z.of_nat (Z.to_nat (bh s)) - 1) with (bh s - 1) in He by lia. rewrite He. cbn [CInt.obind]. unfold c_lt. rewrite Hlt.
   destruct (dec_loop (Z.to_nat (bh s)) (br s)) as [[|] r']; cbn [fst snd negb].
   - reflexivity.
-  - assert (Hs2 : ssub i32 (bh s) 1 = Some (bh s - 1)) by (apply checked_some, i32_small; lia). rewrite Hs2. reflexivity.
+  - reflexivity.
 Qed.
